@@ -233,6 +233,13 @@ var c16BlockTxs = map[string][]string{
 		}
 		return out
 	}(),
+	"b1000o": func() []string {
+		out := []string{"coinbase"}
+		for k := 1; k < 1000; k++ {
+			out = append(out, fmt.Sprintf("var#%d", 9000+k))
+		}
+		return out
+	}(),
 	"b300o": func() []string {
 		out := []string{"coinbase"}
 		for k := 1; k < 300; k++ {
@@ -399,7 +406,7 @@ func c16Refs() {
 	c16Once.Do(func() {
 		c16BlockRefs = map[string]*c16Ref{}
 		c16TxRefs = map[string]*c16Ref{}
-		for _, n := range append(append([]string{}, c16BlockNames...), "b252", "b253", "b3wide", "b300", "b1100", "b65540", "b1200", "b300o") {
+		for _, n := range append(append([]string{}, c16BlockNames...), "b252", "b253", "b3wide", "b300", "b1100", "b65540", "b1200", "b1000o", "b300o") {
 			c16BlockRefs[n] = c16BlockRefOf(c16BuildBlock(n))
 		}
 		for _, n := range c16TxNames {
@@ -1163,11 +1170,12 @@ func (r *c16BlockRun) step(k int, op c16Op, sweep bool) bool {
 		}
 
 	case c16OpOther:
-		// two other blocks (1200 and 300 transactions: above and below any plausible size threshold,
+		// three other blocks (1200, 1000 and 300 transactions: larger than, a little smaller than and far
+		// smaller than the 1100-transaction fixture, on both sides of any plausible size threshold,
 		// different from every fixture under test) go through every route that serialises or parses;
 		// what the block under test handed out earlier must still be what it was
 		mc.Guard(func() {
-			for _, name := range []string{"b1200", "b300o"} {
+			for _, name := range []string{"b1200", "b1000o", "b300o"} {
 				ob := bchutil.NewBlock(c16BuildBlock(name))
 				ob.Bytes()
 				ob.TxLoc()
